@@ -8,6 +8,7 @@ Lean SPEC (driver op `spec.legaluci`).
 import os
 import re
 import subprocess
+import threading
 import time
 
 INFO_RE = re.compile(r" time \d+ nps \d+")
@@ -27,15 +28,46 @@ def canon(stdout):
     return [INFO_RE.sub("", ln.rstrip("\r\n")) for ln in stdout.split("\n") if ln != ""]
 
 
-def run_engine(exe, lines, timeout=60):
+def encode_script(lines, encoding="lf"):
+    """bytes fed to the engine's stdin.  Encodings (C16: the answer must not depend on them):
+       lf        every line terminated by \\n
+       crlf      every line terminated by \\r\\n
+       nofinal   like lf but the LAST line is not terminated (input ends right after the last command)
+       badutf8   like lf, with lines that are not valid UTF-8 inserted (read_line fails on them: they must be skipped silently)"""
+    bl = [l.encode("utf-8", errors="surrogatepass") if isinstance(l, str) else l for l in lines]
+    if encoding == "crlf":
+        return b"".join(x + b"\r\n" for x in bl)
+    if encoding == "nofinal":
+        return b"\n".join(bl)
+    if encoding == "badutf8":
+        out = []
+        for i, x in enumerate(bl):
+            if i % 3 == 0:
+                out.append([b"\xff\xfe isready", b"uci \xc3\x28", b"\x80", b"quit\xff", b"\xf0\x9f uci"][(i // 3) % 5])
+            out.append(x)
+        out.append(b"\xc0\xaf isready")
+        return b"".join(x + b"\n" for x in out)
+    return b"".join(x + b"\n" for x in bl)
+
+
+def run_engine(exe, lines, timeout=60, encoding="lf"):
     """returns (canonical stdout lines, exit status or 'timeout')"""
-    inp = "".join(l + "\n" for l in lines)
+    inp = encode_script(lines, encoding)
     try:
-        p = subprocess.run([exe], input=inp, stdout=subprocess.PIPE, stderr=subprocess.DEVNULL, text=True, timeout=timeout)
-        return canon(p.stdout), p.returncode
+        p = subprocess.run([exe], input=inp, stdout=subprocess.PIPE, stderr=subprocess.DEVNULL, timeout=timeout)
+        return canon(p.stdout.decode("utf-8", errors="replace")), p.returncode
     except subprocess.TimeoutExpired as e:
         out = e.stdout.decode(errors="replace") if isinstance(e.stdout, bytes) else (e.stdout or "")
         return canon(out), "timeout"
+
+
+def first_diff(a, b):
+    for i, (x, y) in enumerate(zip(a, b)):
+        if x != y:
+            return {"line": i, "a": x, "b": y}
+    if len(a) != len(b):
+        return {"line": min(len(a), len(b)), "a": a[len(b):][:1] or None, "b": b[len(a):][:1] or None, "lengths": [len(a), len(b)]}
+    return None
 
 
 def gen_scripts(ctx, flavour, seed, n):
@@ -85,7 +117,7 @@ def model_transcripts(ctx, scripts):
     return out
 
 
-def step_transcripts(tier, seed, ctx, flavours=("mixed", "handshake", "noquit"), per=None):
+def step_transcripts(tier, seed, ctx, flavours=("mixed", "handshake", "noquit"), per=None, encodings=("lf", "lf", "lf")):
     """C16/C03/C13 deterministic part: real binary transcript == model transcript, exit status 0, and the same
     transcript in 3 fresh processes (different key draws)."""
     res = {"name": "blackbox-transcripts", "violations": [], "broken": [], "evaluations": 0, "distinct_nontrivial": 0, "samples": [], "distribution": {}, "spec_compared": 0}
@@ -95,7 +127,8 @@ def step_transcripts(tier, seed, ctx, flavours=("mixed", "handshake", "noquit"),
         return res
     per = per or {"quick": 25, "thorough": 400, "search": 800}[tier]
     seen = set()
-    dist = {"scripts": 0, "go_commands": 0, "with_quit": 0, "without_quit": 0, "runs_per_script": 3, "bestmove_lines": 0}
+    dist = {"scripts": 0, "go_commands": 0, "with_quit": 0, "without_quit": 0, "runs_per_script": 3, "bestmove_lines": 0, "stdin_encodings": [list(e) if isinstance(e, (tuple, list)) else e for e in encodings],
+            "non_ascii_lines": 0, "newgame_splits_checked": 0}
     for fl in flavours:
         scripts, e = gen_scripts(ctx, fl, seed, per)
         if scripts is None:
@@ -113,7 +146,9 @@ def step_transcripts(tier, seed, ctx, flavours=("mixed", "handshake", "noquit"),
             dist["with_quit" if has_quit else "without_quit"] += 1
             ngo = sum(1 for l in lines[: (next((i for i, l in enumerate(lines) if l.split()[:1] == ["quit"]), len(lines)))] if l.split()[:1] == ["go"])
             dist["go_commands"] += ngo
-            runs = [run_engine(exe, lines) for _ in range(3)]
+            encs = encodings[dist["scripts"] % len(encodings)] if isinstance(encodings[0], (tuple, list)) else encodings
+            runs = [run_engine(exe, lines, encoding=enc) for enc in encs]
+            dist["non_ascii_lines"] += sum(1 for l in lines if any(ord(ch) > 126 or ord(ch) < 9 for ch in l))
             res["evaluations"] += 3
             key = ";;".join(lines)
             if key not in seen and (ngo > 0 or len(lines) > 3):
@@ -126,9 +161,11 @@ def step_transcripts(tier, seed, ctx, flavours=("mixed", "handshake", "noquit"),
                 res["violations"].append({"kind": "process-exit", "script": lines, "exit": rc0, "expected": 0, "stdout_tail": out0[-5:], "how": "printf of the script lines piped into the release binary"})
                 continue
             # same answers in every process (C13)
-            for (o, rc) in runs[1:]:
+            for (o, rc), enc in zip(runs[1:], encs[1:]):
                 if o != out0 or rc != rc0:
-                    res["violations"].append({"kind": "transcript-differs-between-processes", "script": lines, "run_a": out0[-12:], "run_b": o[-12:]})
+                    res["violations"].append({"kind": "transcript-differs-between-processes" if enc == encs[0] else "transcript-depends-on-stdin-encoding",
+                                              "script": lines, "stdin_encoding_a": encs[0], "stdin_encoding_b": enc, "exit_a": rc0, "exit_b": rc,
+                                              "first_difference": first_diff(out0, o), "run_a": out0[-12:], "run_b": o[-12:]})
                     break
             # transcript predicted by the model (tie for Engine/Search models; C16 handshake content)
             if mt is None:
@@ -136,7 +173,14 @@ def step_transcripts(tier, seed, ctx, flavours=("mixed", "handshake", "noquit"),
             elif moc == "model-out-of-fuel":
                 pass
             elif mt != out0 or moc != "exit0":
-                res["broken"].append("correspondence blackbox: model transcript != real binary on script " + repr(lines)[:300] + " model=" + repr(mt[-4:]) + "/" + str(moc) + " impl=" + repr(out0[-4:]))
+                res["broken"].append("correspondence blackbox: model transcript != real binary on script " + repr(lines)[:400] + " first difference (a=model, b=binary): " + repr(first_diff(mt, out0)) + " model outcome=" + str(moc))
+                # a concrete property-level question behind such a difference: does the part after the last `ucinewgame`
+                # behave like a fresh process?  (C13, second half) -- ask the real binary
+                upto = next((i for i, l in enumerate(lines) if l.split()[:1] == ["quit"]), len(lines))
+                ng = [i for i, l in enumerate(lines[:upto]) if l.split()[:1] == ["ucinewgame"]]
+                if ng:
+                    dist["newgame_splits_checked"] += 1
+                    check_newgame_split(exe, lines[:upto], ng[-1], res)
             # one legal bestmove per go (C03), judged by the SPEC's legal-move set
             bms = [l for l in out0 if l.startswith("bestmove")]
             dist["bestmove_lines"] += len(bms)
@@ -156,6 +200,21 @@ def step_transcripts(tier, seed, ctx, flavours=("mixed", "handshake", "noquit"),
     return res
 
 
+def check_newgame_split(exe, lines, i, res):
+    """lines[:i] + ucinewgame + lines[i+1:]: the output belonging to the part after ucinewgame must be what a FRESH process prints
+    for that part alone.  Appends a violation and returns True when it is not."""
+    pre, suf = lines[:i], lines[i + 1:]
+    a, rca = run_engine(exe, pre + ["ucinewgame"] + suf)
+    b, rcb = run_engine(exe, suf)
+    res["evaluations"] += 2
+    tail = a[len(a) - len(b):] if len(b) <= len(a) else None
+    if tail != b or rca != rcb:
+        res["violations"].append({"kind": "ucinewgame-not-fresh", "prefix": pre, "suffix": suf, "first_difference (a=after ucinewgame, b=fresh process)": first_diff(tail or a, b),
+                                  "suffix_output_after_newgame": (tail or a)[-10:], "suffix_output_fresh_process": b[-10:]})
+        return True
+    return False
+
+
 def step_newgame(tier, seed, ctx):
     """C13 second half: prefix + ucinewgame + suffix answers the suffix exactly like a fresh process."""
     res = {"name": "blackbox-ucinewgame", "violations": [], "broken": [], "evaluations": 0, "distinct_nontrivial": 0, "samples": [], "distribution": {}, "spec_compared": 0}
@@ -170,6 +229,7 @@ def step_newgame(tier, seed, ctx):
         res["broken"].append("script generator failed: " + e1 + e2)
         return res
     cnt = 0
+    rep_cnt = 0
     for (p, _), (s, _) in zip(pre, suf):
         p = [l for l in p if l.split()[:1] != ["quit"]]
         s = [l for l in s if l.split()[:1] != ["quit"]]
@@ -180,11 +240,23 @@ def step_newgame(tier, seed, ctx):
         cnt += 1
         tail = a[len(a) - len(b):] if len(b) <= len(a) else None
         if tail != b or rca != rcb:
-            res["violations"].append({"kind": "ucinewgame-not-fresh", "prefix": p, "suffix": s, "suffix_output_after_newgame": (tail or a)[-10:], "suffix_output_fresh_process": b[-10:]})
+            res["violations"].append({"kind": "ucinewgame-not-fresh", "prefix": p, "suffix": s, "first_difference (a=after ucinewgame, b=fresh process)": first_diff(tail or a, b),
+                                      "suffix_output_after_newgame": (tail or a)[-10:], "suffix_output_fresh_process": b[-10:]})
         elif len(res["samples"]) < 2:
             res["samples"].append({"prefix": p[-3:], "suffix": s, "suffix_output": b[-4:]})
+        # the same game again after ucinewgame: everything a search leaves behind (table, killers, history heuristic,
+        # game history) would influence exactly these searches, so this is where a leak shows first
+        if any(l.split()[:1] == ["go"] for l in p):
+            c, rcc = run_engine(exe, p + ["ucinewgame"] + p)
+            o, rco = run_engine(exe, p)
+            res["evaluations"] += 2
+            res["spec_compared"] += 1
+            rep_cnt += 1
+            if c != o + o or rcc != rco:
+                res["violations"].append({"kind": "ucinewgame-not-fresh", "prefix": p, "suffix": p, "first_difference (a=script+ucinewgame+script, b=fresh output twice)": first_diff(c, o + o),
+                                          "note": "the same script repeated after ucinewgame must print what a fresh process prints"})
     res["distinct_nontrivial"] = cnt
-    res["distribution"] = {"blackbox_ucinewgame": {"prefix_suffix_pairs": cnt}}
+    res["distribution"] = {"blackbox_ucinewgame": {"prefix_suffix_pairs": cnt, "script_repeated_after_newgame": rep_cnt}}
     return res
 
 
@@ -233,6 +305,55 @@ def step_timed(tier, seed, ctx):
     return res
 
 
+HEAVY_SESSIONS = [
+    ["position fen r3k2r/p1ppqpb1/bn2pnp1/3PN3/1p2P3/2N2Q1p/PPPBBPPP/R3K2R w KQkq - 0 1", "go depth 4",
+     "position fen r4rk1/1pp1qppp/p1np1n2/2b1p1B1/2B1P1b1/P1NP1N2/1PP1QPPP/R4RK1 w - - 0 10", "go depth 4",
+     "position startpos moves e2e4 e7e5 g1f3 b8c6 f1b5 a7a6", "go depth 5"],
+]
+
+
+def step_heavy_sessions(tier, seed, ctx):
+    """C13 on LARGE searches (hundreds of thousands of nodes, tens of thousands of table records): the same session in
+    several fresh processes (independent key draws) must print identical transcripts.  The Lean model is not run on these
+    (too slow); the processes are compared with each other — a difference IS a dependence on the drawn keys."""
+    res = {"name": "blackbox-heavy-sessions", "violations": [], "broken": [], "evaluations": 0, "distinct_nontrivial": 0, "samples": [], "distribution": {}, "spec_compared": 0}
+    exe, err = build_engine(ctx)
+    if exe is None:
+        res["broken"].append("real binary does not build from /repo: " + err)
+        return res
+    nproc = {"quick": 3, "thorough": 6, "search": 8}[tier]
+    total_nodes = 0
+    for sess in HEAVY_SESSIONS:
+        ps = []
+        for _ in range(nproc):
+            ps.append(subprocess.Popen([exe], stdin=subprocess.PIPE, stdout=subprocess.PIPE, stderr=subprocess.DEVNULL))
+        outs = []
+        inp = encode_script(sess)
+        for p in ps:
+            try:
+                o, _ = p.communicate(inp, timeout=600)
+                outs.append((canon(o.decode("utf-8", errors="replace")), p.returncode))
+            except subprocess.TimeoutExpired:
+                p.kill()
+                outs.append(([], "timeout"))
+        res["evaluations"] += nproc
+        res["spec_compared"] += nproc - 1
+        for ln in outs[0][0]:
+            m = re.search(r" nodes (\d+)", ln)
+            if m:
+                total_nodes = max(total_nodes, int(m.group(1)))
+        for (o, rc) in outs[1:]:
+            if o != outs[0][0] or rc != outs[0][1]:
+                res["violations"].append({"kind": "transcript-differs-between-processes", "script": sess, "first_difference": first_diff(outs[0][0], o), "exit_a": outs[0][1], "exit_b": rc,
+                                          "note": "same commands, different fresh processes (different random hash keys)"})
+                break
+        if len(res["samples"]) < 1:
+            res["samples"].append({"script": sess, "stdout_tail": outs[0][0][-3:], "processes": nproc})
+    res["distinct_nontrivial"] = len(HEAVY_SESSIONS)
+    res["distribution"] = {"blackbox_heavy_sessions": {"sessions": len(HEAVY_SESSIONS), "processes_per_session": nproc, "largest_node_count_seen": total_nodes}}
+    return res
+
+
 EXPLOSIVE = [
     "8/PPPPPPPP/8/2k5/8/2K5/pppppppp/8 w - - 0 1",
     "r3k2r/p1ppqpb1/bn2pnp1/3PN3/1p2P3/2N2Q1p/PPPBBPPP/R3K2R w KQkq - 0 1",
@@ -250,19 +371,26 @@ def step_latency(tier, seed, ctx):
         res["broken"].append("real binary does not build from /repo: " + err)
         return res
     bound_ms = 400
-    budgets = [20, 60] if tier == "quick" else [10, 20, 60, 150, 400]
+    # every session is ONE process: a list of movetime budgets answered one after the other (a long search followed by a
+    # short one exposes deadline state that survives from one search to the next)
+    sessions = [[20], [60]] if tier == "quick" else [[10], [20], [60], [150], [400]]
+    long_short = [[1000, 20]] if tier == "quick" else [[1000, 20], [2500, 10, 60], [600, 600, 5]]
     worst = 0.0
-    for fen in EXPLOSIVE:
-        for t in budgets:
-            p = subprocess.Popen([exe], stdin=subprocess.PIPE, stdout=subprocess.PIPE, stderr=subprocess.DEVNULL, text=True, bufsize=1)
-            try:
-                p.stdin.write("position fen %s\nisready\n" % fen)
-                p.stdin.flush()
-                while True:
-                    ln = p.stdout.readline()
-                    if not ln or ln.strip() == "readyok":
-                        break
+    plan = [(fen, sess) for fen in EXPLOSIVE for sess in sessions] + [(fen, sess) for fen in (EXPLOSIVE[3], EXPLOSIVE[4]) for sess in long_short]
+    for fen, sess in plan:
+        p = subprocess.Popen([exe], stdin=subprocess.PIPE, stdout=subprocess.PIPE, stderr=subprocess.DEVNULL, text=True, bufsize=1)
+        try:
+            p.stdin.write("position fen %s\nisready\n" % fen)
+            p.stdin.flush()
+            while True:
+                ln = p.stdout.readline()
+                if not ln or ln.strip() == "readyok":
+                    break
+            for idx, t in enumerate(sess):
                 t0 = time.time()
+                # watchdog: an engine that does not answer at all is killed (and reported) instead of blocking the check
+                wd = threading.Timer((t + bound_ms) / 1000.0 + 20.0, p.kill)
+                wd.start()
                 p.stdin.write("go movetime %d\n" % t)
                 p.stdin.flush()
                 got = None
@@ -273,25 +401,28 @@ def step_latency(tier, seed, ctx):
                     if ln.startswith("bestmove"):
                         got = ln.strip()
                         break
+                wd.cancel()
                 dt = (time.time() - t0) * 1000.0
                 res["evaluations"] += 1
                 res["spec_compared"] += 1
                 over = dt - t
                 worst = max(worst, over)
                 if got is None or over > bound_ms:
-                    res["violations"].append({"kind": "latency", "fen": fen, "movetime_ms": t, "answered_after_ms": round(dt, 1), "bound_ms": t + bound_ms, "answer": got})
+                    res["violations"].append({"kind": "latency", "fen": fen, "session_movetimes_ms": sess, "go_index": idx, "movetime_ms": t, "answered_after_ms": round(dt, 1), "bound_ms": t + bound_ms, "answer": got})
+                    break
                 elif len(res["samples"]) < 3:
-                    res["samples"].append({"fen": fen, "movetime_ms": t, "answered_after_ms": round(dt, 1), "answer": got})
-            finally:
-                try:
-                    p.stdin.write("quit\n")
-                    p.stdin.flush()
-                except Exception:
-                    pass
-                try:
-                    p.wait(timeout=5)
-                except Exception:
-                    p.kill()
+                    res["samples"].append({"fen": fen, "session_movetimes_ms": sess, "movetime_ms": t, "answered_after_ms": round(dt, 1), "answer": got})
+        finally:
+            try:
+                p.stdin.write("quit\n")
+                p.stdin.flush()
+            except Exception:
+                pass
+            try:
+                p.wait(timeout=5)
+            except Exception:
+                p.kill()
+    budgets = sessions + long_short
     res["distinct_nontrivial"] = res["evaluations"]
     res["distribution"] = {"blackbox_latency": {"max_overshoot_ms": round(worst, 1), "bound_ms": bound_ms, "positions": len(EXPLOSIVE), "budgets_ms": budgets}}
     return res
